@@ -477,9 +477,10 @@ def finish(prop, mod, tier, seed, results, wall, only_facets):
         lines.append(f"VIOLATION property={prop} replay={os.path.relpath(path, HERE)}")
         viol_paths.append(path)
         rc = 1
-    for key, n in sorted(known.items()):
+    # one line per LISTED finding of this property (also when this run generated no matching case)
+    for key in sorted(set(known) | set(findings.active_keys(prop))):
         desc = findings.describe(key)
-        lines.append(f"KNOWN-FINDING: property={prop} {key}: {desc} [{n} generated cases excluded]")
+        lines.append(f"KNOWN-FINDING: property={prop} {key}: {desc} [{known.get(key, 0)} generated cases excluded]")
     if errors:
         for r in errors[:3]:
             lines.append(f"HARNESS-ERROR {prop}/{r['facet']}#{r['shard']}:\n{r['error']}")
